@@ -61,7 +61,7 @@ func (c *Ctx) frozenGlobal(g *ssa.Global) bool {
 		readOnlyVal = func(v ssa.Value, depth int) bool {
 			// a loaded value: harmless unless it is a reference (map, slice, pointer) that flows on
 			switch v.Type().Underlying().(type) {
-			case *types.Map, *types.Slice, *types.Pointer, *types.Chan, *types.Interface, *types.Signature:
+			case *types.Map, *types.Slice, *types.Pointer, *types.Chan, *types.Interface:
 			default:
 				if !containsRefType(v.Type()) {
 					return true
@@ -158,6 +158,8 @@ func (c *Ctx) frozenGlobal(g *ssa.Global) bool {
 
 func containsRefType(t types.Type) bool {
 	switch u := t.Underlying().(type) {
+	case *types.Signature:
+		return false // function values are immutable
 	case *types.Struct:
 		for i := 0; i < u.NumFields(); i++ {
 			if containsRefType(u.Field(i).Type()) {
@@ -193,4 +195,41 @@ func (c *Ctx) initialCell(g *ssa.Global) *cell {
 		c.initCells[g.Pkg] = cells
 	}
 	return cells[g]
+}
+
+// frozenMapOf: v is a lookup (or its value part) in a frozen package-level map; returns the map's
+// initial contents.
+func frozenMapOf(v ssa.Value) (*amap, *ssa.Lookup, bool) {
+	if ex, ok := v.(*ssa.Extract); ok && ex.Index == 0 {
+		v = ex.Tuple
+	}
+	lk, ok := v.(*ssa.Lookup)
+	if !ok || theCtx == nil {
+		return nil, nil, false
+	}
+	ld, ok := lk.X.(*ssa.UnOp)
+	if !ok || ld.Op != token.MUL {
+		return nil, nil, false
+	}
+	g, ok := ld.X.(*ssa.Global)
+	if !ok {
+		return nil, nil, false
+	}
+	cell := theCtx.initialCell(g)
+	if cell == nil || cell.v.k != kMap || cell.v.m == nil || cell.v.m.opaque {
+		return nil, nil, false
+	}
+	return cell.v.m, lk, true
+}
+
+// singleEntryOf: the value of the only entry of the frozen map v is looked up in.
+func singleEntryOf(v ssa.Value) (aval, bool) {
+	m, _, ok := frozenMapOf(v)
+	if !ok || len(m.entries) != 1 {
+		return aval{}, false
+	}
+	for _, e := range m.entries {
+		return e, true
+	}
+	return aval{}, false
 }
